@@ -1561,7 +1561,6 @@ _add("C13", "partial", [
     "well-behaved Display (assumption)",
     "c13_read is near-definitional (runFault = feed with end-of-input replaced by Io); its content is the modelling claim that every state "
     "asks for another byte, tied by op rfault at every k",
-    "c13_typed_fault alone does not bound the error index - that follows from c13_typed_fault_eq + typed_within_input",
 ])
 _add("C16", "partial", [
     "depth: c16_text_agrees_* assume depth <= 127; beyond it from_value succeeds and the text path fails (open finding C16-text-depth-limit, "
@@ -2114,3 +2113,9 @@ PROPS["C02"]["rule"] += (" Op hist32 <cfg> <two|fld|seq> <str|slice|reader> <fir
     "kind of source (no state of the Deserializer outlives an item: do_deserialize_f32 clears single_precision on every return). Specification: Spec.Canon.expected of "
     "the item's text, and every number of the value against its literal (Spec.Decimal / Spec.Ieee) - verdict `C02 after an f32 request on the same Deserializer`. "
     "The outcome of the f32 request itself is echoed (spec-only part: C02 does not talk about it).")
+
+# ---- C13 typed targets: class, equality with the clean run and position bound in one statement (closes the honesty-pass item)
+PROPS["C13"]["lean_targets"] = PROPS["C13"]["lean_targets"][:-1] + ["SJ.Props.TypedFaultBound"] + PROPS["C13"]["lean_targets"][-1:]
+PROPS["C13"]["level_text"] += (" c13_typed_fault_bounded (Props/TypedFaultBound.lean): under a failing reader the typed deserializer returns Io, or "
+    "exactly the clean-end outcome, which is a Syntax-classified parser error whose index counts at most the delivered bytes or a visitor "
+    "error that is unpositioned or positioned within them (c13_typed_fault_eq + typed_within_input).")
